@@ -1,0 +1,69 @@
+//go:build verif
+
+package sync
+
+// This file contains no code. It carries the machine-checked contracts (structured //@ comments)
+// that /verif/govc binds to the functions of this package when built with -tags verif.
+
+//@ pure validParams(p) = p.trustingPeriod != 0 && (p.SyncFromHash != "" || p.PruningWindow != 0 || p.SyncFromHeight != 0)
+
+//@ pure chainSpacing(bt) = forall h uint64 :: chainAt(h).Height() == h && chainAt(h+1).Time() >= chainAt(h).Time() && chainAt(h+1).Time() - chainAt(h).Time() <= bt
+
+//@ func (*Parameters).Validate(p)
+//@   props C16
+//@   modifies Parameters.hash
+//@   ensures [C16] accepted: result == nil ==> validParams(p)
+
+//@ func (*Parameters).Hash(p)
+//@   props C16
+//@   modifies Parameters.hash
+//@   ensures [C16] no-hash: result1 == nil && p.SyncFromHash == "" && len(old(p.hash)) == 0 ==> len(result0) == 0 && len(p.hash) == 0
+
+//@ func (*Syncer).tailHash(s, oldTail)
+//@   props C16
+//@   modifies Parameters.hash
+//@   ensures [C16] no-hash: result2 == nil && s.Params.SyncFromHash == "" && len(old(s.Params.hash)) == 0 ==> !result0
+
+//@ func (*Syncer).estimateTailHeight(s, head)
+//@   props C16
+//@   requires validParams(s.Params)
+//@   ensures [C16] inchain: 1 <= result && (head.Height() >= 1 ==> result <= head.Height())
+
+//@ func (*Syncer).findTailHeight(s, ctx, oldTail, head)
+//@   props C16
+//@   requires validParams(s.Params)
+//@   requires !oldTail.IsZero() && 1 <= oldTail.Height() && oldTail.Height() <= head.Height()
+//@   requires storeHeightBound <= head.Height()
+//@   ensures [C16] inchain: result1 == nil ==> oldTail.Height() <= result0 && result0 <= head.Height()
+//@   ensures [C16] retention: result1 == nil && chainSpacing(s.Params.blockTime) && oldTail == chainAt(oldTail.Height()) && head == chainAt(head.Height()) ==> forall h uint64 :: oldTail.Height() <= h && h < result0 ==> chainAt(h).Time() < head.Time() - s.Params.PruningWindow
+//@ loop 0:
+//@   invariant range: oldTail.Height() <= newTailHeight && newTailHeight <= head.Height()
+//@   decreases head.Height() - newTailHeight
+
+//@ func (*Syncer).tailHeight(s, ctx, oldTail, head)
+//@   props C16
+//@   requires validParams(s.Params)
+//@   requires oldTail.IsZero() || (1 <= oldTail.Height() && oldTail.Height() <= head.Height())
+//@   requires storeHeightBound <= head.Height()
+//@   ensures [C16] inchain: result1 == nil ==> 1 <= result0 && (s.Params.SyncFromHeight == 0 && head.Height() >= 1 ==> result0 <= head.Height())
+
+//@ func (*Syncer).moveTail(s, ctx, from, to)
+//@   props C16
+//@   requires from.IsZero() || from.Height() == storeTailH
+//@   requires [C16] within-store: from.IsZero() || to.Height() <= from.Height() || to.Height() <= storeLow + 1
+//@   modifies ghost:storeTailH, ghost:storeLow, Parameters.hash
+
+//@ func (*Syncer).renewTail(s, ctx, oldTail, head)
+//@   props C16
+//@   requires validParams(s.Params)
+//@   requires oldTail.IsZero() || (1 <= oldTail.Height() && oldTail.Height() <= head.Height())
+//@   requires storeHeightBound <= head.Height()
+//@   modifies ghost:storeLow, Parameters.hash
+//@   ensures [C16] nonzero: result1 == nil ==> (!result0.IsZero() || (oldTail.IsZero() && result0 == oldTail))
+//@   ensures [C16] inchain: result1 == nil && !result0.IsZero() && s.Params.SyncFromHash == "" && len(old(s.Params.hash)) == 0 && s.Params.SyncFromHeight == 0 && head.Height() >= 1 ==> 1 <= result0.Height() && result0.Height() <= head.Height()
+
+//@ func (*Syncer).subjectiveTail(s, ctx, head)
+//@   props C16
+//@   requires validParams(s.Params)
+//@   requires !head.IsZero() && 1 <= head.Height() && storeHeightBound <= head.Height() && storeTailH <= head.Height()
+//@   modifies ghost:storeTailH, ghost:storeLow, Parameters.hash
